@@ -331,12 +331,18 @@ func concurrentQueries(c *caseCtx) {
 	var wg sync.WaitGroup
 	var mu sync.Mutex
 	bad := 0
-	for w := 0; w < 8; w++ {
+	// every worker asks about EVERY position, each starting elsewhere, several times over: a clash needs two
+	// goroutines inside the same helper at the same instant, so the phase has to last long enough to make
+	// that all but certain (a shared scratch buffer in Bitboard.ToSquares went unnoticed in 1 run of 4 with
+	// three passes over an eighth of the positions per worker)
+	const workers, reps = 16, 4
+	for w := 0; w < workers; w++ {
 		wg.Add(1)
 		go func(w int) {
 			defer wg.Done()
-			for rep := 0; rep < 3; rep++ {
-				for i := w; i < len(sts); i += 8 {
+			for rep := 0; rep < reps; rep++ {
+				for k := 0; k < len(sts); k++ {
+					i := (k + w*len(sts)/workers) % len(sts)
 					if got := answer(sts[i]); got != want[i] {
 						mu.Lock()
 						if bad < 2 {
@@ -350,7 +356,7 @@ func concurrentQueries(c *caseCtx) {
 		}(w)
 	}
 	wg.Wait()
-	fmt.Printf("COUNT concurrent-queries %d\n", len(sts)*3)
+	fmt.Printf("COUNT concurrent-queries %d\n", len(sts)*workers*reps)
 }
 
 func isCorner(sq board.Square) bool {
